@@ -284,4 +284,11 @@ def _subst(t, old, new):
         return new
     if not isinstance(t, tuple):
         return t
-    return tuple(_subst(x, old, new) if isinstance(x, tuple) else x for x in t)
+    r = tuple(_subst(x, old, new) if isinstance(x, tuple) else x for x in t)
+    # a, b, c = <record>: the i-th item of a namedtuple / tuple value
+    if len(r) == 3 and r[0] == "item" and isinstance(r[1], tuple) and isinstance(r[2], int):
+        if r[1][0] == "nt" and 0 <= r[2] < len(r[1][2]):
+            return r[1][2][r[2]][1]
+        if r[1][0] == "tuple" and 0 <= r[2] < len(r[1][1]):
+            return r[1][1][r[2]]
+    return r
